@@ -294,9 +294,53 @@ static std::string lost_wakeup(int threads, int rounds)
     return "L stuck=" + std::to_string(stuck) + " wrong=" + std::to_string(wrong);
 }
 
+// C <threads> <timeout ms>: a request to a port nobody listens on (connection refused), then a request to a live server
+// through the same client.  -> C refused=<F|R|P> live=<F|R|P>
+static std::string refused_case(int threads, int timeout_ms)
+{
+    // a port that is certainly closed: bind, learn the number, close
+    int probe = ::socket(AF_INET, SOCK_STREAM, 0);
+    sockaddr_in a {};
+    a.sin_family      = AF_INET;
+    a.sin_addr.s_addr = htonl(INADDR_LOOPBACK);
+    a.sin_port        = 0;
+    ::bind(probe, reinterpret_cast<sockaddr*>(&a), sizeof a);
+    socklen_t al = sizeof a;
+    ::getsockname(probe, reinterpret_cast<sockaddr*>(&a), &al);
+    int closed_port = ntohs(a.sin_port);
+    ::close(probe);
+
+    Server srv;
+    srv.start();
+    std::string out;
+    {
+        Http::Experimental::Client client;
+        client.init(Http::Experimental::Client::options().threads(threads).maxConnectionsPerHost(1));
+        auto one = [&](const std::string& url) {
+            std::atomic<int> st { 0 };
+            auto rb = client.get(url);
+            if (timeout_ms > 0)
+                rb.timeout(std::chrono::milliseconds(timeout_ms));
+            rb.send().then([&](Http::Response) { st = 1; }, [&](std::exception_ptr) { st = 2; });
+            for (int k = 0; k < (timeout_ms + 1500) * 10 && st.load() == 0; ++k)
+                std::this_thread::sleep_for(std::chrono::microseconds(100));
+            return st.load() == 1 ? "F" : st.load() == 2 ? "R" : "P";
+        };
+        std::string r1 = one("http://127.0.0.1:" + std::to_string(closed_port) + "/0/a");
+        std::string r2 = one("http://127.0.0.1:" + std::to_string(srv.port) + "/1/a");
+        out            = "C refused=" + r1 + " live=" + r2;
+        srv.stop = true;
+        client.shutdown();
+    }
+    srv.shutdown();
+    return out;
+}
+
 static std::string handle(const std::string& line)
 {
     auto t = pv::split(line);
+    if (t.size() == 3 && t[0] == "C")
+        return refused_case(atoi(t[1].c_str()), atoi(t[2].c_str()));
     if (t.size() == 3 && t[0] == "L")
         return lost_wakeup(atoi(t[1].c_str()), atoi(t[2].c_str()));
     if (t.size() < 6)
